@@ -242,4 +242,157 @@ theorem sfrags_eq (R : Reg) (pv : GValue → String) (vars vars' : Vars) : ∀ (
       simp only [sfrags]
       rw [sfrag_eq R pv vars vars' f f' h.1, sfrags_eq R pv vars vars' rest rest' h.2]
 
+-- ================================================================== secrets at any depth
+
+-- ------------------------------------------------------------------ reflexivity of the relation
+
+mutual
+theorem VRel_refl (R : Reg) : ∀ (m : Option Meta) (g : GValue), VRel R m g g
+  | m, .obj fs => by
+    simp only [VRel]
+    right
+    cases ht : inputTypeOf R m with
+    | some t => exact FRel_refl R t fs
+    | none => trivial
+  | m, .list xs => by
+    simp only [VRel]
+    right
+    exact LRel_refl R m xs
+  | m, .null => by simp [VRel]
+  | m, .int i => by simp [VRel]
+  | m, .float t => by simp [VRel]
+  | m, .str s => by simp [VRel]
+  | m, .bool b => by simp [VRel]
+  | m, .enum n => by simp [VRel]
+theorem FRel_refl (R : Reg) : ∀ (t : TypeDef) (fs : List (String × GValue)), FRel R t fs fs
+  | t, [] => by simp [FRel]
+  | t, (k, v) :: rest => by
+    simp only [FRel]
+    exact ⟨trivial, VRel_refl R _ v, FRel_refl R t rest⟩
+theorem LRel_refl (R : Reg) : ∀ (m : Option Meta) (xs : List GValue), LRel R m xs xs
+  | m, [] => by simp [LRel]
+  | m, x :: rest => by
+    simp only [LRel]
+    exact ⟨VRel_refl R m x, LRel_refl R m rest⟩
+end
+
+-- ------------------------------------------------------------------ replacing a subvalue
+
+/-- apply `f` to the value of the `i`-th entry of an object -/
+def modF (f : GValue → GValue) : List (String × GValue) → Nat → List (String × GValue)
+  | [], _ => []
+  | (k, v) :: r, 0 => (k, f v) :: r
+  | p :: r, i + 1 => p :: modF f r i
+
+/-- apply `f` to the `i`-th item of a list -/
+def modL (f : GValue → GValue) : List GValue → Nat → List GValue
+  | [], _ => []
+  | x :: r, 0 => f x :: r
+  | x :: r, i + 1 => x :: modL f r i
+
+/-- the value `g` with the subvalue at `path` (entry / item indices, outermost first) replaced by
+    `new`; a path that leaves the value changes nothing -/
+def replaceAt (new : GValue) : List Nat → GValue → GValue
+  | [], _ => new
+  | i :: rest, .obj fs => .obj (modF (replaceAt new rest) fs i)
+  | i :: rest, .list xs => .list (modL (replaceAt new rest) xs i)
+  | _ :: _, g => g
+
+/-- the subvalue of `g` at `path` -/
+def subAt : List Nat → GValue → Option GValue
+  | [], g => some g
+  | i :: rest, .obj fs => match fs[i]? with
+    | some (_, v) => subAt rest v
+    | none => none
+  | i :: rest, .list xs => match xs[i]? with
+    | some x => subAt rest x
+    | none => none
+  | _ :: _, _ => none
+
+/-- walking `path` into the value `g` that sits at a position described by `m`: is a position
+    marked secret met on the way (the start, an input-object field at any depth, the items of a
+    list standing at such a field)?  Input-object fields are looked up in the registry exactly as
+    the printer does; below a value the registry knows nothing about, nothing is secret. -/
+def secretAlong (R : Reg) : Option Meta → GValue → List Nat → Bool
+  | m, _, [] => isSecret m
+  | m, .obj fs, i :: rest =>
+    isSecret m ||
+      match inputTypeOf R m, fs[i]? with
+      | some t, some (k, v) => secretAlong R (inputFieldMeta R t k) v rest
+      | _, _ => false
+  | m, .list xs, i :: rest =>
+    isSecret m ||
+      match xs[i]? with
+      | some x => secretAlong R m x rest
+      | none => false
+  | m, _, _ :: _ => isSecret m
+
+theorem FRel_modF (R : Reg) (t : TypeDef) (f : GValue → GValue) :
+    ∀ (fs : List (String × GValue)) (i : Nat),
+    (∀ k v, fs[i]? = some (k, v) → VRel R (inputFieldMeta R t k) v (f v)) →
+    FRel R t fs (modF f fs i)
+  | [], _, _ => by simp [modF, FRel]
+  | (k, v) :: r, 0, h => by
+    simp only [modF, FRel]
+    exact ⟨trivial, h k v (by simp), FRel_refl R t r⟩
+  | (k, v) :: r, i + 1, h => by
+    simp only [modF, FRel]
+    refine ⟨trivial, VRel_refl R _ v, FRel_modF R t f r i ?_⟩
+    intro k' v' hi
+    exact h k' v' (by simpa using hi)
+
+theorem LRel_modL (R : Reg) (m : Option Meta) (f : GValue → GValue) :
+    ∀ (xs : List GValue) (i : Nat),
+    (∀ x, xs[i]? = some x → VRel R m x (f x)) → LRel R m xs (modL f xs i)
+  | [], _, _ => by simp [modL, LRel]
+  | x :: r, 0, h => by
+    simp only [modL, LRel]
+    exact ⟨h x (by simp), LRel_refl R m r⟩
+  | x :: r, i + 1, h => by
+    simp only [modL, LRel]
+    refine ⟨VRel_refl R m x, LRel_modL R m f r i ?_⟩
+    intro x' hi
+    exact h x' (by simpa using hi)
+
+theorem VRel_of_secret (R : Reg) (m : Option Meta) (g g' : GValue) (h : isSecret m = true) :
+    VRel R m g g' := by
+  cases g <;> simp [VRel, h]
+
+/-- replacing anything below a secret position gives a value equal outside secrets -/
+theorem VRel_replaceAt (R : Reg) (new : GValue) : ∀ (path : List Nat) (m : Option Meta) (g : GValue),
+    secretAlong R m g path = true → VRel R m g (replaceAt new path g)
+  | [], m, g, h => by
+    have hs : isSecret m = true := by cases g <;> simpa [secretAlong] using h
+    exact VRel_of_secret R m g _ hs
+  | i :: rest, m, .obj fs, h => by
+    by_cases hs : isSecret m = true
+    · exact VRel_of_secret R m _ _ hs
+    · simp only [secretAlong, hs, Bool.false_or] at h
+      simp only [replaceAt, VRel]
+      right
+      cases ht : inputTypeOf R m with
+      | none => simp [ht] at h
+      | some t =>
+        simp only
+        apply FRel_modF
+        intro k v hi
+        rw [ht, hi] at h
+        exact VRel_replaceAt R new rest _ v h
+  | i :: rest, m, .list xs, h => by
+    by_cases hs : isSecret m = true
+    · exact VRel_of_secret R m _ _ hs
+    · simp only [secretAlong, hs, Bool.false_or] at h
+      simp only [replaceAt, VRel]
+      right
+      apply LRel_modL
+      intro x hi
+      rw [hi] at h
+      exact VRel_replaceAt R new rest m x h
+  | i :: rest, m, .null, h => by simp only [replaceAt]; exact VRel_refl R m _
+  | i :: rest, m, .int _, h => by simp only [replaceAt]; exact VRel_refl R m _
+  | i :: rest, m, .float _, h => by simp only [replaceAt]; exact VRel_refl R m _
+  | i :: rest, m, .str _, h => by simp only [replaceAt]; exact VRel_refl R m _
+  | i :: rest, m, .bool _, h => by simp only [replaceAt]; exact VRel_refl R m _
+  | i :: rest, m, .enum _, h => by simp only [replaceAt]; exact VRel_refl R m _
+
 end AGV.Lemmas.Stringify
